@@ -61,8 +61,31 @@ def closure_compares_name(f, call, neq=True):
     return False
 
 
+def rule_lookup_by_name(chk, fsm):
+    if fsm:
+        ok = False
+        for n in F.exprs(fsm["thir"], "If"):
+            c = F.strip(n["cond"])
+            # `if id == macro_def.name { .. use .. }` or `if id != macro_def.name { continue }`: the equal case is the one used
+            is_cmp = (c.get("k") == "Binary" and c.get("op") in ("Eq", "Ne")) or (c.get("k") == "Call" and short(c.get("fn") or "") in ("eq", "ne"))
+            if not (is_cmp and any(x.get("name") == "name" and "Macro" in x.get("of", "") for x in F.exprs(c, "Field"))):
+                continue
+            eq = (c.get("op") == "Eq") if c.get("k") == "Binary" else short(c.get("fn") or "") == "eq"
+            uses = any(a.get("variant") == "User" for a in F.exprs(n["then"], "Adt"))
+            skips = any(x.get("k") == "Continue" for x in F.walk(n["then"])) and not uses
+            ok = ok or (eq and uses) or (not eq and skips)
+        chk.ob("C12.redef/lookup-by-name", ok, "a macro is found by `id == macro_def.name`" if ok else "find_single_macro no longer compares the identifier with the macro name", where(fsm))
+
+
 def rule_redef(chk, pc):
     f = chk.facts
+    try:
+        if rule_redef_eval(chk, pc):
+            fsm = f.fn("find_single_macro", PP)
+            rule_lookup_by_name(chk, fsm)
+            return
+    except Exception as e:
+        chk.note("directive model not evaluated: %r" % (e,))
     retains = [c for c in F.exprs(pc["thir"], "Call") if short(c.get("fn") or "") == "retain"]
     pushes = [c for c in F.exprs(pc["thir"], "Call") if (c.get("fn") or "").endswith("Vec::<T, A>::push") and "Macro" in str(c.get("targs"))]
     chk.floor("C12.floor/retain-sites", len(retains), 2, "macros.retain sites (#define, #undef)", where(pc))
@@ -77,20 +100,7 @@ def rule_redef(chk, pc):
         ok_order = bool(before)
     chk.ob("C12.redef/remove-before-push", ok_order, "#define removes the previous definition before pushing the new one" if ok_order else
            "#define no longer removes an existing macro of the same name before pushing (both definitions would be live)", where(pc))
-    fsm = f.fn("find_single_macro", PP)
-    if fsm:
-        ok = False
-        for n in F.exprs(fsm["thir"], "If"):
-            c = F.strip(n["cond"])
-            # `if id == macro_def.name { .. use .. }` or `if id != macro_def.name { continue }`: the equal case is the one used
-            is_cmp = (c.get("k") == "Binary" and c.get("op") in ("Eq", "Ne")) or (c.get("k") == "Call" and short(c.get("fn") or "") in ("eq", "ne"))
-            if not (is_cmp and any(x.get("name") == "name" and "Macro" in x.get("of", "") for x in F.exprs(c, "Field"))):
-                continue
-            eq = (c.get("op") == "Eq") if c.get("k") == "Binary" else short(c.get("fn") or "") == "eq"
-            uses = any(a.get("variant") == "User" for a in F.exprs(n["then"], "Adt"))
-            skips = any(x.get("k") == "Continue" for x in F.walk(n["then"])) and not uses
-            ok = ok or (eq and uses) or (not eq and skips)
-        chk.ob("C12.redef/lookup-by-name", ok, "a macro is found by `id == macro_def.name`" if ok else "find_single_macro no longer compares the identifier with the macro name", where(fsm))
+    rule_lookup_by_name(chk, f.fn("find_single_macro", PP))
 
 
 def rule_include(chk, pc):
@@ -299,6 +309,97 @@ def rule_macro_parse_eval(chk):
         got = tab.get(line)
         chk.ob("C12.args/define/%s" % line.replace(" ", "_"), got == want, "#define %s -> %s" % (line, (got,)) if got == want else
                "`#define %s` is recorded as %s, must be %s (function-like?, parameter count, body)" % (line, (got,), (want,)), where(mp), sample={"define": line})
+    return True
+
+
+class DirectiveModel:
+    """preprocess_command evaluated on one directive against a given state (macro list, condition chain): returns the
+    result, the macro list and chain afterwards and the effects it asked for (file load, include, #pragma once mark,
+    macro expansion of a condition, condition evaluation)."""
+
+    def __init__(self, facts):
+        import interp as I
+        self.I = I
+        self.f = facts
+        self.pc = facts.fn("preprocess_command", PP)
+
+    def tok(self, k, v=None):
+        I = self.I
+        return I.Enum("PreprocessToken", None, {"0": I.Enum("Token", k, {} if v is None else {"0": v}), "1": I.Enum("PreprocessTokenData", None, {"x": 0})})
+
+    def ident(self, s):
+        return self.tok("Id", self.I.Enum("Identifier", None, {"0": s}))
+
+    def macro(self, name, body=(), is_function=False, num_params=0):
+        return self.I.Enum("Macro", None, {"name": name, "is_function": is_function, "num_params": num_params, "tokens": list(body), "location": self.I.Opaque("loc")})
+
+    def words(self, *ws):
+        """a directive line from words: identifiers, ints, and the keywords if / else (own token kinds), separated by spaces"""
+        out = []
+        for w in ws:
+            if out:
+                out.append(self.tok("Whitespace"))
+            if w == "if":
+                out.append(self.tok("If"))
+            elif w == "else":
+                out.append(self.tok("Else"))
+            elif isinstance(w, int):
+                out.append(self.tok("LiteralInt", w))
+            elif w.startswith('"'):
+                out.append(self.tok("LiteralString", w.strip('"')))
+            else:
+                out.append(self.ident(w))
+        return out
+
+    def run(self, cmd, macros, chain, cond=True):
+        I = self.I
+        eff = []
+        ext = {"get_location": lambda a: I.Opaque("loc"),
+               "::load": lambda a: (eff.append(("load", a[1])), I.Enum("Result", "Ok", {"0": I.Opaque("file")}))[1],
+               "preprocess_included_file": lambda a: (eff.append(("included",)), I.Enum("Result", "Ok", {"0": ()}))[1],
+               "mark_as_pragma_once": lambda a: (eff.append(("once",)), ())[1],
+               "apply_macros": lambda a: (eff.append(("expand", a[2])), I.Enum("Result", "Ok", {"0": a[0]}))[1],
+               "condition_parser::parse": lambda a: (eff.append(("eval",)), I.Enum("Result", "Ok", {"0": cond}))[1]}
+        ip = I.Interp(self.f, max_depth=10, extern=ext)
+        ip.max_loop = 200
+        ch = I.Enum("ConditionChain", None, {"0": [I.Enum("ConditionState", s) for s in chain]})
+        ms = list(macros)
+        try:
+            r = ip.apply(self.pc, [[], I.Enum("FileLoader", None, {"source_manager": I.Opaque("sm")}), cmd, I.Enum("FileId", None, {"0": 0}), ms, ch])
+        except I.Unknown as e:
+            return ("aborts" if "panicking" in str(e) else "unreadable", str(e)[:120])
+        res = r.variant if isinstance(r, I.Enum) else repr(r)
+        if res == "Err" and isinstance(r.fields.get("0"), I.Enum):
+            res = "Err(%s)" % r.fields["0"].variant
+        return (res, [(m.fields["name"], m.fields["is_function"], [t_.fields["0"].variant for t_ in m.fields["tokens"]]) for m in ms],
+                [s.variant for s in ch.fields["0"]], eff)
+
+
+def rule_redef_eval(chk, pc):
+    """#define / #undef evaluated on a macro list: a definition replaces every earlier macro of that name (whatever its
+    kind) and is appended, other macros are untouched; #undef removes exactly the named macro; inside a skipped region
+    neither has an effect. True when readable."""
+    dm = DirectiveModel(chk.facts)
+    X1, Y, XF = dm.macro("X", [dm.tok("LiteralInt", 1)]), dm.macro("Y", []), dm.macro("X", [dm.tok("LiteralInt", 9)], True, 1)
+    cases = [
+        ("define-new", dm.words("define", "Z", 5), [X1, Y], [], ("Ok", [("X", False, ["LiteralInt"]), ("Y", False, []), ("Z", False, ["LiteralInt"])], [], [])),
+        ("define-replaces", dm.words("define", "X", 2, 3), [X1, Y], ["Enabled"], ("Ok", [("Y", False, []), ("X", False, ["LiteralInt", "Whitespace", "LiteralInt"])], ["Enabled"], [])),
+        ("define-replaces-other-kind", dm.words("define", "X", 7), [XF, Y], [], ("Ok", [("Y", False, []), ("X", False, ["LiteralInt"])], [], [])),
+        ("define-skipped", dm.words("define", "X", 2), [X1, Y], ["DisabledInner"], ("Ok", [("X", False, ["LiteralInt"]), ("Y", False, [])], ["DisabledInner"], [])),
+        ("undef", dm.words("undef", "X"), [X1, Y], [], ("Ok", [("Y", False, [])], [], [])),
+        ("undef-unknown", dm.words("undef", "Q"), [X1, Y], [], ("Ok", [("X", False, ["LiteralInt"]), ("Y", False, [])], [], [])),
+        ("undef-skipped", dm.words("undef", "X"), [X1, Y], ["Enabled", "DisabledOuter"], ("Ok", [("X", False, ["LiteralInt"]), ("Y", False, [])], ["Enabled", "DisabledOuter"], [])),
+    ]
+    first = True
+    for name, cmd, ms, chain, want in cases:
+        got = dm.run(cmd, ms, chain)
+        if first and got[0] == "unreadable":
+            return False
+        first = False
+        chk.ob("C12.redef/model/%s" % name, got == want, "macro list afterwards: %s" % [m[0] for m in want[1]] if got == want else
+               "directive `#%s` on macros %s in chain %s gives %s, must be %s" % (name, [m.fields["name"] for m in ms], chain, (got,), (want,)), where(pc), sample={"case": name})
+    for k_ in ("C12.redef/retain-by-name", "C12.redef/remove-before-push"):
+        chk.ob(k_, True, "decided by the evaluated #define / #undef (C12.redef/model/*)", where(pc), trivial=True)
     return True
 
 
